@@ -174,7 +174,7 @@ var propSpecs = []propSpec{
 	{
 		id: "C14",
 		runs: []runSpec{
-			{dir: "mux", entry: "ZZC14", quick: []int{106, 205, 1105, 1205, 2204, 3205}, thorough: []int{306, 1306, 2305, 3306}},
+			{dir: "mux", entry: "ZZC14", quick: []int{106, 205, 1105, 1205, 2204, 3205, 4105}, thorough: []int{306, 1306, 2305, 3306, 4205}},
 		},
 		covers:  []string{"host-history", "host-accepted", "host-rejected", "host-params"},
 		bounds:  "4 operation alphabets of 4-9 operations (Add/Delete of literal and parameterised domains in mixed case, Delete of an unknown domain, a 6-literal bundle plus a wildcard domain, RegisterInterceptor + interceptor domain, an IPv6 literal, two domains sharing a first byte under an indexed root that are deleted one after the other), every history of <= 2 operations; Host = every ASCII string of <= 5 bytes (<= 6 after single operations, <= 4 for the third alphabet) (case, ':port', brackets, invalid ports all included); reference: own normaliser + the C02 reference resolver over the lower-cased live domain set, parameters compared",
@@ -249,9 +249,10 @@ var propSpecs = []propSpec{
 		runs: []runSpec{
 			{dir: "mux", entry: "ZZC06", quick: []int{0, 1, 2, 3, 4, 5, 10, 11, 12, 13, 14, 15, 20, 21, 22, 23, 24, 25, 30, 31, 32, 33, 34, 35, 40, 41, 42, 43, 44, 45, 50, 51, 52, 53, 54, 55, 1000, 1002, 1020, 1022, 1030, 1032, 16709, 17609, 13609, 16309, 12709, 18909, 60, 62, 65, 70, 72, 75}, thorough: []int{0, 1, 2, 3, 4, 5, 10, 11, 12, 13, 14, 15, 20, 21, 22, 23, 24, 25, 30, 31, 32, 33, 34, 35, 40, 41, 42, 43, 44, 45, 50, 51, 52, 53, 54, 55, 1000, 1002, 1020, 1022, 1030, 1032, 100, 101, 102, 110, 111, 112, 130, 131, 132, 16709, 17609, 13609, 16309, 12709, 18909, 60, 62, 65, 70, 72, 75, 16700, 18900}},
 			{dir: "mux", entry: "ZZC06Amb", quick: []int{0, 1}, thorough: []int{0, 1}},
+			{dir: "mux", entry: "ZZC06Panic", quick: []int{0, 1}, thorough: []int{0, 1}},
 			{dir: "mux", entry: "ZZC06RR", quick: []int{1, 12, 23, 33, 34, 35, 37, 44, 55, 56, 57, 134, 103, 256, 201}, thorough: []int{1, 12, 23, 33, 34, 35, 37, 44, 55, 56, 57, 77, 134, 103, 137, 155, 256, 201, 234, 207}},
 		},
-		covers:  []string{"interleaving", "two-readers", "ambiguous-pair"},
+		covers:  []string{"interleaving", "two-readers", "ambiguous-pair", "panic-under-the-lock"},
 		race:    true,
 		bounds:  "router created with WithLock(true) holding 3 routes; 2 logical threads: one writer (Handle that splits an untouched route's node, Handle of a method on the toggled route, Remove, Remove+Handle toggle, Clean, a Handle rejected as ambiguous) x one reader (ServeHTTP of the toggled route with GET and POST, of an untouched literal route, of an untouched parameter route, Routes(), strict URL), all 36 pairs plus the writers Remove(GET) and Remove+Handle(POST) with three readers; 6 two-request readers; 6 pairs of writers without a reader whose final table must be the result of some serial order of their operations (incl. two registrations through different Prefix objects that share a caller-owned middleware slice); 15 pairs of readers running at the same time (ServeHTTP, Routes(), strict URL of two different routes incl. one that runs an interceptor, non-strict URL of patterns never seen before), alone and next to a splitting registration or the toggle; deadlocks (sync.RWMutex with writer preference: a waiting Lock blocks new readers) are reported; the schedule is a symbolic choice at every lock operation and every schedule at that granularity is explored; a happens-before monitor (vector clocks over lock/unlock, pool put/get, thread start/join) checks every heap access of the interpreted code; each response must be one a sequential router could produce",
 		boundsT: "as quick plus 9 scenarios with 3 threads (two writers and a reader)",
@@ -269,9 +270,9 @@ var propSpecs = []propSpec{
 			{dir: "mux", entry: "ZZC08Rec", quick: []int{2}, thorough: []int{3}},
 			{dir: "mux", entry: "ZZC07Grp", quick: []int{2}, thorough: []int{3}},
 			{dir: "mux", entry: "ZZC09Grp", quick: []int{4, 5}, thorough: []int{4, 5, 6}}, // sibling routers of a group: what one is given never shows in the other
-			{dir: "mux", entry: "ZZC07Par", quick: []int{0, 1, 2, 3, 10, 12}, thorough: []int{0, 1, 2, 3, 10, 12}},
+			{dir: "mux", entry: "ZZC07Par", quick: []int{0, 1, 2, 3, 4, 10, 12}, thorough: []int{0, 1, 2, 3, 4, 10, 12}},
 		},
-		covers:  []string{"foreign-activity", "pooled-request-served", "nested-request", "after-a-wide-request", "par-two-routers", "par-router-and-hosts", "par-build-and-serve", "par-shared-options", "par-requests", "group-siblings"},
+		covers:  []string{"foreign-activity", "pooled-request-served", "nested-request", "after-a-wide-request", "par-two-routers", "par-router-and-hosts", "par-build-and-serve", "par-shared-options", "par-requests", "par-group-requests", "group-siblings"},
 		race:    true,
 		bounds:  "sequential: a brand-new router (with/without WithTrace) is observed (OPTIONS * Allow, a 404, Routes(), Allow after one registration) before and after (and against the documented answers after) every sequence of <= 2 operations from 10 on other routers, a Hosts matcher and a Group; pooled contexts: two consecutive requests with symbolic paths <= 5 bytes on the backtracking table, optionally after a Group served (its own release path), and a handler that serves a nested request while its own is in flight; a request that captures 30-32 parameters (around the pool's release threshold) followed by an ordinary one; a HEAD request after a HEAD whose handler panicked and was recovered (objects pooled per request must not carry anything over); the engine also reports a pooled object that is released twice; concurrent (logical threads + happens-before monitor over every heap access): two routers registering/removing in parallel, a router and a Hosts matcher, one router being built and cleaned while another serves, a router built from the same Option values as one that is serving, two parallel requests with symbolic parameter values on one quiescent router with and without WithLock",
 		boundsT: "foreign sequences of <= 3 operations, pooled paths <= 8 bytes",
